@@ -17,7 +17,8 @@ class Optimizer(ABC):
         
     def zero_grad(self):
         for p in self.parameters:
-            if p.requires_grad: p.zero_()
+            # a parameter backward never reached has nothing to clear; giving it a zero gradient would make step() update it
+            if p.requires_grad and p._grad is not None: p.zero_()
         
     @abstractmethod
     def step(self):
